@@ -238,7 +238,8 @@ def corrupt(base, c):
   elif kind == 'byte_plus':
     if size:
       p = list(payload)
-      p[c[1]] = chr((ord(p[c[1]]) + 1) % 256)
+      i = c[1] % size
+      p[i] = chr((ord(p[i]) + 1) % 256)
       chunks_payload = [''.join(p)]
   elif kind == 'swap':
     if size >= 2:
